@@ -1,7 +1,7 @@
 (** Executable glue for the C13 correspondence check: run a history on the model machine and on the
     value-semantics specification, compare both with what the implementation and the engine oracle
     returned, and say whether each step lies in the domain of the theorems. *)
-From SF Require Export C13.Session.
+From SF Require Export C13.Wrap.
 Open Scope string_scope.
 Open Scope list_scope.
 
@@ -62,6 +62,7 @@ Definition iobs_eqb (with_static : bool) (i : iobs) (b : obs) : bool :=
 Definition cache_fresh (tables : list (string * frame)) (st : state) : bool :=
   forallb (fun kc =>
     match assoc (fst kc) (s_cache st) with
+    | Some [] => true
     | Some cs =>
         match assoc (fst kc) (s_views st) with
         | Some d => strs_eqb (static_cols (d_leaf d)) cs
@@ -73,11 +74,17 @@ Definition cache_fresh (tables : list (string * frame)) (st : state) : bool :=
 Definition step_dom (tables : list (string * frame)) (st : state) (s : step) : bool :=
   match s with
   | SReg _ h => match heap_get (s_heap st) h with
-                | Some d => negb (has_star (static_cols (d_leaf d))) | None => true end
+                | Some d => negb (has_star (static_cols (d_leaf d)))
+                            && fresh_for (fresh (s_next st)) d && nodupb (static_cols (d_leaf d))
+                | None => true end
   | SSql q =>
+      (* the schema cache is right, knows every table the query names, and the premises of
+         [session_sql_sound] hold for the qualified query *)
       cache_fresh tables st
+      && (let q0 := lower_query q in
+          forallb (fun n => is_some (assoc n (q_ctes q0)) || is_some (cache_cols (s_cache st) n)) (refs q0))
       && match qualify (s_cache st) (lower_query q) with
-         | Some q1 => no_capture q1 (s_views st) && negb (has_star (static_cols (q_main q1)))
+         | Some q1 => sql_side_ok st q1 && negb (has_star (static_cols (q_main q1)))
          | None => true
          end
   | SJoinB h1 h2 _ _ =>
@@ -95,8 +102,8 @@ Definition b2s (b : bool) : string := if b then "1" else "0".
 Section Check.
   Variable c : cfg.
 
-  (** per step five characters: impl=model | impl=spec | model=spec | in-domain | oracle=spec *)
-  Fixpoint go (tables : list (string * frame)) (st : state) (sp : sstate)
+  (** per step five characters: impl=model | impl=spec | model=spec | in-domain (this and all earlier steps) | oracle=spec *)
+  Fixpoint go (tables : list (string * frame)) (st : state) (sp : sstate) (dom : bool)
               (steps : list step) (impl oracle : list iobs) : string :=
     match steps with
     | [] => ""
@@ -107,16 +114,17 @@ Section Check.
         let p := sobs so in
         let i := hd IErr impl in
         let e := hd IErr oracle in
+        let dom' := dom && step_dom tables st s in
         String.append
           (String.append (b2s (iobs_eqb true i m))
             (String.append (b2s (iobs_eqb true i p))
               (String.append (b2s (obs_eqb m p))
-                (String.append (b2s (step_dom tables st s)) (b2s (iobs_eqb false e p))))))
-          (go tables st' sp' rest (tl impl) (tl oracle))
+                (String.append (b2s dom') (b2s (iobs_eqb false e p))))))
+          (go tables st' sp' dom' rest (tl impl) (tl oracle))
     end.
 
   Definition check (k : case) : string :=
-    go (k_tables k) (init_state (k_frames k)) (init_spec (k_frames k)) (k_steps k) (k_impl k) (k_oracle k).
+    go (k_tables k) (init_state (k_frames k)) (init_spec (k_frames k)) true (k_steps k) (k_impl k) (k_oracle k).
 
   (** model and spec observations of a whole history (for the property statement and replays) *)
   Fixpoint model_obs (tables : list (string * frame)) (st : state) (steps : list step) : list obs :=
@@ -130,3 +138,8 @@ Section Check.
     | s :: rest => let '(sp', so) := sstep tables sp s in sobs so :: spec_obs tables sp' rest
     end.
 End Check.
+
+(** the whole property, executably: on a history the model machine and the value-semantics spec give
+    the same observation at every step *)
+Definition agree (c : cfg) (tables : list (string * frame)) (frames : list frame) (steps : list step) : bool :=
+  list_eqb obs_eqb (model_obs c tables (init_state frames) steps) (spec_obs tables (init_spec frames) steps).
